@@ -86,8 +86,23 @@ structure DocSpec (h : Handler V) (c : Cause V) : Prop where
   field : ∀ p, h.field = some p → p ≠ [] → FieldSpec h c p
   «when» : ∀ b, h.when = some b → b = true
 
--- the three guards of the partial theorem
-/-- callbacks cannot tell the private token from `None` -/
+-- the guards of the partial theorem
+/-- criterion `crit` is consulted on the resolved value `x`: the code and the docs can differ only
+    where the field is absent there (the code passes the private token to a callback, the docs say
+    `None`; the private token used as a criterion equals the absent marker) -/
+def Readable (crit : VCrit V) (x : Option V) : Prop :=
+  x = none → (∀ f, crit = .callback f → f none = f (some PyVal.null)) ∧ crit ≠ .lit none
+
+/-- per (handler, cause): every (criterion, state) pair that `match` consults is `Readable` — this
+    is the gap of finding C15-F2 (and of the private-token abuse), no more: with the field present in
+    all consulted states the guard holds for every callback -/
+def TokenFree (h : Handler V) (c : Cause V) : Prop :=
+  ∀ p, h.field = some p → p ≠ [] →
+    (c.changing = true → Readable h.value (c.new p) ∧ Readable h.value (c.old p) ∧
+      (h.changing = true → Readable h.old (c.old p) ∧ Readable h.new (c.new p))) ∧
+    (c.changing = false → Readable h.value (c.body p))
+
+/-- (sufficient for `TokenFree`, cause-independent) callbacks cannot tell the private token from `None` -/
 def TokenBlind (h : Handler V) : Prop :=
   ∀ f, (h.value = .callback f ∨ h.old = .callback f ∨ h.new = .callback f) → f none = f (some PyVal.null)
 
@@ -150,8 +165,7 @@ theorem matchesLabels_iff (h : Handler V) (c : Cause V) :
 -- ---------------------------------------------------------------------------------------------
 -- bridging lemmas (not property statements): one field criterion, code vs. docs
 
-theorem holdsCode_iff (crit : VCrit V) (x : Option V)
-    (hTok : ∀ f, crit = .callback f → f none = f (some PyVal.null)) (hLit : crit ≠ .lit none) :
+theorem holdsCode_iff (crit : VCrit V) (x : Option V) (hR : Readable crit x) :
     holdsCode crit x = true ↔ ValueHolds crit x := by
   cases crit with
   | unset => cases x <;> simp [holdsCode, ValueHolds, VCrit.isUnset, VCrit.isPresent, VCrit.isAbsent,
@@ -163,17 +177,20 @@ theorem holdsCode_iff (crit : VCrit V) (x : Option V)
   | callback f =>
     cases x with
     | none => simp [holdsCode, ValueHolds, VCrit.isUnset, VCrit.isPresent, VCrit.isAbsent,
-        VCrit.isCallable, VCrit.call, VCrit.pyEq, docArg, hTok f rfl]
+        VCrit.isCallable, VCrit.call, VCrit.pyEq, docArg, (hR rfl).1 f rfl]
     | some v => simp [holdsCode, ValueHolds, VCrit.isUnset, VCrit.isPresent, VCrit.isAbsent,
         VCrit.isCallable, VCrit.call, VCrit.pyEq, docArg]
   | lit y =>
     cases y with
-    | none => exact absurd rfl hLit
+    | none =>
+      cases x with
+      | none => exact absurd rfl (hR rfl).2
+      | some w => simp [holdsCode, ValueHolds, VCrit.isUnset, VCrit.isPresent, VCrit.isAbsent,
+          VCrit.isCallable, VCrit.call, VCrit.pyEq, reseq]
     | some v => cases x <;> simp [holdsCode, ValueHolds, VCrit.isUnset, VCrit.isPresent, VCrit.isAbsent,
         VCrit.isCallable, VCrit.call, VCrit.pyEq, reseq]
 
-theorem sideCore_iff (crit : VCrit V) (x : Option V)
-    (hTok : ∀ f, crit = .callback f → f none = f (some PyVal.null)) (hLit : crit ≠ .lit none) :
+theorem sideCore_iff (crit : VCrit V) (x : Option V) (hR : Readable crit x) :
     sideCore (sideAtoms crit x) = true ↔ SideHolds crit x := by
   cases crit with
   | unset => simp [sideCore, sideAtoms, SideHolds, VCrit.isUnset]
@@ -184,12 +201,16 @@ theorem sideCore_iff (crit : VCrit V) (x : Option V)
   | callback f =>
     cases x with
     | none => simp [sideCore, sideAtoms, SideHolds, VCrit.isUnset, VCrit.isPresent, VCrit.isAbsent,
-        VCrit.isCallable, VCrit.call, VCrit.pyEq, docArg, hTok f rfl]
+        VCrit.isCallable, VCrit.call, VCrit.pyEq, docArg, (hR rfl).1 f rfl]
     | some v => simp [sideCore, sideAtoms, SideHolds, VCrit.isUnset, VCrit.isPresent, VCrit.isAbsent,
         VCrit.isCallable, VCrit.call, VCrit.pyEq, docArg]
   | lit y =>
     cases y with
-    | none => exact absurd rfl hLit
+    | none =>
+      cases x with
+      | none => exact absurd rfl (hR rfl).2
+      | some w => simp [sideCore, sideAtoms, SideHolds, VCrit.isUnset, VCrit.isPresent, VCrit.isAbsent,
+          VCrit.isCallable, VCrit.call, VCrit.pyEq, reseq]
     | some v => cases x <;> simp [sideCore, sideAtoms, SideHolds, VCrit.isUnset, VCrit.isPresent,
         VCrit.isAbsent, VCrit.isCallable, VCrit.call, VCrit.pyEq, reseq]
 
@@ -206,18 +227,14 @@ theorem matchesWhen_iff (h : Handler V) : matchesWhen h = true ↔ ∀ b, h.when
 
 /-- the field part of `match`, code vs. docs, for a handler with a real field path -/
 theorem field_part_iff (h : Handler V) (c : Cause V) (p : List String) (hf : h.field = some p)
-    (hp : p ≠ []) (hTok : TokenBlind h) (hLit : NoTokenLit h) (hOld : OldOnlyFree h c) :
+    (hp : p ≠ []) (hR : TokenFree h c) (hOld : OldOnlyFree h c) :
     (matchesFieldValues h c = true ∧ matchesFieldChanges h c = true) ↔ FieldSpec h c p := by
   have hhas : hasField h = true := (hasField_true_iff h).2 ⟨p, hf, hp⟩
   have hpath : path h = p := path_of_field h p hf
-  have vI : ∀ x, holdsCode h.value x = true ↔ ValueHolds h.value x :=
-    fun x => holdsCode_iff h.value x (fun f e => hTok f (Or.inl e)) hLit.1
-  have oI : ∀ x, sideCore (sideAtoms h.old x) = true ↔ SideHolds h.old x :=
-    fun x => sideCore_iff h.old x (fun f e => hTok f (Or.inr (Or.inl e))) hLit.2.1
-  have nI : ∀ x, sideCore (sideAtoms h.new x) = true ↔ SideHolds h.new x :=
-    fun x => sideCore_iff h.new x (fun f e => hTok f (Or.inr (Or.inr e))) hLit.2.2
+  obtain ⟨hRc, hRn⟩ := hR p hf hp
   cases hc : c.changing with
   | false =>
+    have vI := holdsCode_iff h.value (c.body p) (hRn hc)
     rw [fvCore_other h c hc]
     simp only [matchesFieldChanges, fcCore, hc, hhas, hpath, Bool.not_true, Bool.false_or, Bool.not_false,
       if_true, vI]
@@ -227,10 +244,15 @@ theorem field_part_iff (h : Handler V) (c : Cause V) (p : List String) (hf : h.f
     · intro fs
       simpa [hc] using fs.other (by simp [hc])
   | true =>
+    obtain ⟨rN, rO, rS⟩ := hRc hc
+    have vN := holdsCode_iff h.value (c.new p) rN
+    have vO := holdsCode_iff h.value (c.old p) rO
     rw [fvCore_changing h c hc]
-    simp only [hhas, hpath, Bool.not_true, Bool.false_or, Bool.or_eq_true, vI]
+    simp only [hhas, hpath, Bool.not_true, Bool.false_or, Bool.or_eq_true, vN, vO]
     by_cases hu : IsUpdate h
     · obtain ⟨h1, h2⟩ := hu
+      have oI := sideCore_iff h.old (c.old p) (rS h1).1
+      have nI := sideCore_iff h.new (c.new p) (rS h1).2
       simp only [matchesFieldChanges, fcCore, changeCore, hc, hhas, hpath, h1, h2, Bool.not_true, if_false,
         Bool.false_or, Bool.and_eq_true, Bool.not_eq_true', oI, nI, Bool.false_eq_true]
       constructor
@@ -258,6 +280,8 @@ theorem field_part_iff (h : Handler V) (c : Cause V) (p : List String) (hf : h.f
           cases h2 : h.fieldNeedsChange with
           | false => rfl
           | true => exact absurd ⟨h1, h2⟩ hu
+        have oI := sideCore_iff h.old (c.old p) (rS h1).1
+        have nI := sideCore_iff h.new (c.new p) (rS h1).2
         simp only [matchesFieldChanges, fcCore, changeCore, hc, hhas, hpath, h1, h2, Bool.not_true, if_false,
           Bool.not_false, Bool.true_or, Bool.true_and, Bool.and_eq_true, oI, nI, Bool.false_eq_true]
         constructor
@@ -277,7 +301,7 @@ theorem field_part_iff (h : Handler V) (c : Cause V) (p : List String) (hf : h.f
 /-- match = the documented criteria, under the exact guards (see the header for the full statement
     and why it is false without them). -/
 theorem match_eq_doc_partial (h : Handler V) (c : Cause V)
-    (hTok : TokenBlind h) (hLit : NoTokenLit h) (hOld : OldOnlyFree h c) :
+    (hR : TokenFree h c) (hOld : OldOnlyFree h c) :
     matchHandler h c = true ↔ DocSpec h c := by
   obtain ⟨lI, aI⟩ := matchesLabels_iff h c
   have core : matchHandler h c = true ↔
@@ -293,13 +317,13 @@ theorem match_eq_doc_partial (h : Handler V) (c : Cause V)
   · rintro ⟨a, b, c', d, e, g⟩
     refine ⟨a, b, c', d, ?_, g⟩
     intro p hf hp
-    exact (field_part_iff h c p hf hp hTok hLit hOld).1 e
+    exact (field_part_iff h c p hf hp hR hOld).1 e
   · intro ds
     refine ⟨ds.selector, ds.subresource, ds.labels, ds.annotations, ?_, ds.when⟩
     cases hh : hasField h with
     | true =>
       obtain ⟨p, hf, hp⟩ := (hasField_true_iff h).1 hh
-      exact (field_part_iff h c p hf hp hTok hLit hOld).2 (ds.field p hf hp)
+      exact (field_part_iff h c p hf hp hR hOld).2 (ds.field p hf hp)
     | false =>
       constructor
       · simp [matchesFieldValues, fvCore, fvAtoms, hh]
@@ -307,14 +331,36 @@ theorem match_eq_doc_partial (h : Handler V) (c : Cause V)
         cases h.changing <;> cases c.changing <;> simp
 
 /-- for `@on.update` / `@on.field` handlers the first guard is void -/
-theorem match_eq_doc_update (h : Handler V) (c : Cause V) (hu : IsUpdate h)
-    (hTok : TokenBlind h) (hLit : NoTokenLit h) : matchHandler h c = true ↔ DocSpec h c :=
-  match_eq_doc_partial h c hTok hLit (fun _ _ _ _ hnu => absurd hu hnu)
+theorem match_eq_doc_update_partial (h : Handler V) (c : Cause V) (hu : IsUpdate h)
+    (hR : TokenFree h c) : matchHandler h c = true ↔ DocSpec h c :=
+  match_eq_doc_partial h c hR (fun _ _ _ _ hnu => absurd hu hnu)
 
 /-- for watching / spawning / indexing causes (the object's only state) the first guard is void -/
-theorem match_eq_doc_nonchanging (h : Handler V) (c : Cause V) (hc : c.changing = false)
-    (hTok : TokenBlind h) (hLit : NoTokenLit h) : matchHandler h c = true ↔ DocSpec h c :=
-  match_eq_doc_partial h c hTok hLit (fun _ _ _ hc' => by simp [hc] at hc')
+theorem match_eq_doc_nonchanging_partial (h : Handler V) (c : Cause V) (hc : c.changing = false)
+    (hR : TokenFree h c) : matchHandler h c = true ↔ DocSpec h c :=
+  match_eq_doc_partial h c hR (fun _ _ _ hc' => by simp [hc] at hc')
+
+/-- the cause-independent sufficient condition for the callback/token guard -/
+theorem tokenFree_of_blind (h : Handler V) (c : Cause V) (hTok : TokenBlind h) (hLit : NoTokenLit h) :
+    TokenFree h c := by
+  intro p _ _
+  exact ⟨fun _ => ⟨fun _ => ⟨fun f e => hTok f (Or.inl e), hLit.1⟩, fun _ => ⟨fun f e => hTok f (Or.inl e), hLit.1⟩,
+      fun _ => ⟨fun _ => ⟨fun f e => hTok f (Or.inr (Or.inl e)), hLit.2.1⟩,
+                fun _ => ⟨fun f e => hTok f (Or.inr (Or.inr e)), hLit.2.2⟩⟩⟩,
+    fun _ => fun _ => ⟨fun f e => hTok f (Or.inl e), hLit.1⟩⟩
+
+/-- syntactic sufficient conditions for the old-state guard (finding C15-F1): the field is unchanged,
+    or the object is being created (no old state) and `value=` is not ABSENT / a callback -/
+theorem oldOnlyFree_of_unchanged (h : Handler V) (c : Cause V)
+    (hsame : ∀ p, h.field = some p → c.old p = c.new p) : OldOnlyFree h c := by
+  intro p hf _ _ _ hv; rw [← hsame p hf]; exact hv
+
+theorem oldOnlyFree_on_creation (h : Handler V) (c : Cause V)
+    (hnew : ∀ p, h.field = some p → c.old p = none)
+    (hval : h.value = .unset ∨ h.value = .present ∨ ∃ v, h.value = .lit (some v)) : OldOnlyFree h c := by
+  intro p hf _ _ _ hv
+  rw [hnew p hf] at hv
+  rcases hval with e | e | ⟨v, e⟩ <;> rw [e] at hv <;> simp [ValueHolds] at hv
 
 /-- match ⇒ prematch (prematch drops exactly the change-related conjunct) -/
 theorem prematch_of_match (h : Handler V) (c : Cause V) (hm : matchHandler h c = true) :
@@ -348,6 +394,31 @@ omit [PyVal V] in
 theorem dedup_first_kept (pre post : List (Handler V)) (h : Handler V)
     (hfirst : ∀ g ∈ pre, g.key ≠ h.key) : h ∈ dedup (pre ++ h :: post) :=
   dedupByAux_first Handler.key _ [] pre post h rfl (by simp) hfirst
+
+/- FULL STATEMENT of the clause "one FUNCTION registered twice under the same id is invoked once":
+       theorem dedup_function_once (l) : ((dedup l).map Handler.funcKey).Nodup
+   FALSE of the code (`bound_method_twice_witness`, finding C15-F7): `_deduplicated` identifies a function
+   with the registered object (`id(handler.fn)`), and a bound method is a new object on every access. -/
+
+/-- the clause's key: the function itself (for a bound method: instance and function) and the id -/
+def Handler.funcKey (h : Handler V) : Nat × String := (h.func, h.id)
+
+/-- every function of the list was registered through one and the same object (true for plain
+    functions, partials, lambdas; false for a method accessed anew for each decorator) -/
+def OneObjectPerFunction (l : List (Handler V)) : Prop :=
+  ∀ h ∈ l, ∀ g ∈ l, h.func = g.func → h.fn = g.fn
+
+omit [PyVal V] in
+/-- under that guard no two results share (function, id) -/
+theorem dedup_function_once_partial (l : List (Handler V)) (hobj : OneObjectPerFunction l) :
+    ((dedup l).map Handler.funcKey).Nodup := by
+  refine nodup_map_of_nodup_map Handler.key Handler.funcKey (dedup l) (dedup_nodup l) ?_
+  intro a ha b hb hk
+  have ha' := (dedup_sublist l).subset ha
+  have hb' := (dedup_sublist l).subset hb
+  simp only [Handler.funcKey, Prod.mk.injEq] at hk
+  simp only [Handler.key, Prod.mk.injEq]
+  exact ⟨hobj a ha' b hb' hk.1, hk.2⟩
 
 -- ---- get_handlers --------------------------------------------------------------------------------
 
@@ -396,21 +467,26 @@ theorem selected_once (hs : List (Handler V)) (c : Cause V) (ex : List String) :
 
 -- ---- stealth -------------------------------------------------------------------------------------
 /- FULL STATEMENT of the clause "objects matched by no handler are left untouched: no annotations,
-   no finalizer", over the model's cycle (its `Effect` list enumerates what `process_resource_causes`
-   can queue: the patch carried in from `memory.remaining_patch`, on.event invocations, daemon
-   spawning, the three `patch.fns.append` sites, and `process_changing_cause`):
+   no finalizer", over the model's cycle. Its `Effect` list enumerates what `process_resource_causes`
+   + `application.apply` can do to the object in one cycle: the patch carried in from
+   `memory.remaining_patch`, on.event invocations, daemon spawning, the three `patch.fns.append`
+   sites, `process_changing_cause`, and the sleep-and-touch for a non-empty `delays`:
        theorem stealth_full (nothing (pre)matches) : cycle r cs o stopped = []
-   It is FALSE of the code in exactly two ways; `stealth_exact` says precisely what is done instead:
+   It is FALSE of the code in three ways; `stealth_exact` says precisely what is done instead:
      * `stealth_blocked_witness`: the own finalizer is still on the object → it is removed (this is
        what the clause wants — "no finalizer" — so it is the code that is right, not a finding);
-     * `stealth_carried_witness`: a transformation function of an earlier cycle, whose JSON-patch was
-       rejected with HTTP 422, is re-sent although the object matches nothing any more. By design
-       (/repo 1c8f3dd keeps exactly the handlers' functions, "which will not be produced again", and
-       drops the framework's own finalizer edits): it is the retry of a write that a legitimately
-       invoked handler produced. Replayed on the real code by corpus/C15/d17-carried-patch.json.
-   Not in the model (so not covered by these theorems): `application.apply`'s sleep-and-touch, which
-   needs a non-empty `delays`, i.e. a matched daemon/timer or changing handler; progress records
-   left on an object that stopped matching while a cycle was open (C03's subject). -/
+     * `stealth_carried_witness` (finding C15-F5, by design): a handler's transformation function of an
+       earlier cycle, whose JSON-patch was rejected with HTTP 422, is re-sent although the object
+       matches nothing any more (/repo 1c8f3dd keeps exactly the handlers' functions). Replayed on
+       the real code by corpus/C15/d17-carried-patch.json;
+     * `stealth_touch_witness` (finding C15-F6): a daemon/timer that matched the object earlier is
+       still exiting (`match_daemons` returns its polling delay): the cycle sleeps and then writes
+       the `touch-dummy` annotation to an object that matches nothing and has no finalizer — and
+       nothing ever removes it. Replayed by corpus/C15/F6.json (real daemons, consecutive events).
+   `Obj.lingering` / `Obj.carried` / `Obj.resumed` are in-memory residues of EARLIER cycles and inputs
+   here (daemon life cycles are C09's, the carried patch C08's subject); what `process_changing_cause`
+   leaves in the patch is C02's, so the touch is modelled for cycles without handling only. Progress
+   records left on an object that stopped matching while a cycle was open are C03's subject. -/
 
 /-- exactly what a cycle does to an object that no handler of any kind (pre)matches -/
 theorem stealth_exact (r : Registry V) (cs : Causes V) (o : Obj) (stopped : List String)
@@ -420,7 +496,10 @@ theorem stealth_exact (r : Registry V) (cs : Causes V) (o : Obj) (stopped : List
     cycle r cs o stopped =
       (if o.carried then [Effect.carried] else []) ++
       (if o.blocked then [Effect.removeFinalizer] else []) ++
-      (if !o.deletedEvent && o.ongoing && o.blocked && o.noDelays then [Effect.removeFinalizer] else []) := by
+      (if !o.deletedEvent && o.ongoing && o.blocked && !(hasHandlers r.spawning && o.lingering)
+        then [Effect.removeFinalizer] else []) ++
+      (if !o.deletedEvent && (hasHandlers r.spawning && o.lingering) && !o.carried && !o.blocked
+        then [Effect.touch] else []) := by
   have e1 : iterPlain r.watching cs.watching [] = [] := by
     simp only [iterPlain, List.filter_eq_nil_iff]
     intro h hm; simp [selPlain, selPlainCore, selAtoms, hw h hm]
@@ -430,32 +509,34 @@ theorem stealth_exact (r : Registry V) (cs : Causes V) (o : Obj) (stopped : List
   have e3 : requiresFinalizerSpawning r.spawning cs.spawning stopped = false := by
     simp only [requiresFinalizerSpawning, List.any_eq_false]
     intro h hm; simp [reqFinSpawningCore, selAtoms, hs h hm]
-  rcases o with ⟨d, g, b, n, c⟩
-  cases d <;> cases g <;> cases b <;> cases n <;> cases c <;>
-    simp [cycle, hpre, e3, blindCore, addingCore, removingCore, mustBlockCore, releaseCore, earlyExitCore,
-      getHandlersPlain, e1, e2, dedup, dedupBy, dedupByAux, ids]
+  rcases o with ⟨d, g, b, c, l, hd, res⟩
+  cases hS : hasHandlers r.spawning <;>
+  cases d <;> cases g <;> cases b <;> cases c <;> cases l <;>
+    simp [cycle, hpre, e3, hS, blindCore, addingCore, removingCore, mustBlockCore, releaseCore, earlyExitCore,
+      touchCore, getHandlersPlain, e1, e2, dedup, dedupBy, dedupByAux, ids]
 
-/-- the clause proper, under the exact guards: own finalizer absent, nothing carried in -/
+/-- the clause proper, under the exact guards: own finalizer absent, nothing carried in, no daemon
+    of an earlier matched period still exiting -/
 theorem stealth_total_partial (r : Registry V) (cs : Causes V) (o : Obj) (stopped : List String)
     (hpre : prematchAny r.changing cs.changing = false)
     (hw : ∀ h ∈ r.watching, matchHandler h cs.watching = false)
     (hs : ∀ h ∈ r.spawning, matchHandler h cs.spawning = false)
-    (hfin : o.blocked = false) (hcar : o.carried = false) :
+    (hfin : o.blocked = false) (hcar : o.carried = false) (hlin : o.lingering = false) :
     cycle r cs o stopped = [] := by
-  rw [stealth_exact r cs o stopped hpre hw hs]; simp [hfin, hcar]
+  rw [stealth_exact r cs o stopped hpre hw hs]; simp [hfin, hcar, hlin]
 
 /-- weaker hypotheses (on.event handlers and finalizer-free spawning may match): no changing
     handler prematches, no finalizer-requiring daemon/timer matches, own finalizer absent, nothing
-    carried in ⇒ the cycle queues no write of its own (no finalizer change, no handling: hence no
-    progress / diff-base annotations, no re-sent transformation) -/
+    carried in, nothing lingering ⇒ the cycle queues no write of its own (no finalizer change, no
+    handling: hence no progress / diff-base annotations, no re-sent transformation, no touch) -/
 theorem stealth_partial (r : Registry V) (cs : Causes V) (o : Obj) (stopped : List String)
     (hpre : prematchAny r.changing cs.changing = false)
     (hsp : requiresFinalizerSpawning r.spawning cs.spawning stopped = false)
-    (hfin : o.blocked = false) (hcar : o.carried = false) :
+    (hfin : o.blocked = false) (hcar : o.carried = false) (hlin : o.lingering = false) :
     ∀ e ∈ cycle r cs o stopped, e.isFrameworkWrite = false := by
   intro e he
-  simp only [cycle, hpre, hsp, hfin, hcar, blindCore, addingCore, removingCore, mustBlockCore, releaseCore,
-    earlyExitCore, Bool.and_false, Bool.false_and, Bool.or_false, Bool.not_false, Bool.and_true,
+  simp only [cycle, hpre, hsp, hfin, hcar, hlin, blindCore, addingCore, removingCore, mustBlockCore, releaseCore,
+    earlyExitCore, touchCore, Bool.and_false, Bool.false_and, Bool.or_false, Bool.not_false, Bool.and_true,
     Bool.and_not_self, Bool.false_eq_true, if_false, List.append_nil, List.nil_append, List.mem_append] at he
   rcases he with he | he
   · split at he
@@ -464,7 +545,6 @@ theorem stealth_partial (r : Registry V) (cs : Causes V) (o : Obj) (stopped : Li
   · split at he
     · simp only [List.mem_singleton] at he; subst he; rfl
     · simp at he
-
 
 -- ---------------------------------------------------------------------------------------------
 -- the resource selector (docs/resources.rst), after the positional notation has been parsed
@@ -597,7 +677,7 @@ theorem selector_check_iff_named (s : Selector) (r : Resource)
 omit [PyVal V] in
 /-- the handler-level criterion: `_matches_resource` is "no selector (sub-handler) or the documented
     selector holds" — this is what the opaque `Handler.selector : Option Bool` of `match` stands for -/
-theorem resource_criterion_doc (h : Handler V) (sel : Option Selector) (r : Resource)
+theorem resource_criterion_doc_partial (h : Handler V) (sel : Option Selector) (r : Resource)
     (hsel : h.selector = sel.map (·.check r))
     (hk8s : ∀ s, sel = some s → isEventsK8s r = true → s.anyName ≠ some .everything ∧ s.fn = none) :
     matchesResource h = true ↔ ∀ s, sel = some s → SelectorDoc s r := by
@@ -617,7 +697,7 @@ section Witnesses
 /-- a handler on field `spec.f` of the selected resource with one `value=` criterion -/
 def wH (changing : Bool) (value : VCrit J) (fnc : Bool) (old new : VCrit J := .unset)
     (labels : Option (List (String × MCrit)) := none) (rf : Bool := false) : Handler J :=
-  { fn := 0, id := "h", changing := changing, selector := some true, subresourceOk := true,
+  { fn := 0, func := 0, id := "h", changing := changing, selector := some true, subresourceOk := true,
     labels := labels, annotations := none, «when» := none, field := some ["spec", "f"], value := value,
     old := old, new := new, fieldNeedsChange := fnc, requiresFinalizer := rf,
     kind := ⟨none, false, false⟩ }
@@ -628,6 +708,11 @@ def wC (changing : Bool) (body old new : Option J) (label : Option String := non
     annotations := fun _ => none, body := fun _ => body, old := fun _ => old, new := fun _ => new,
     kind := ⟨.create, false, false⟩ }
 
+/-- the object flags of a cycle: own finalizer, carried patch, lingering daemon (rest: false/empty) -/
+def wO (blocked : Bool := false) (carried : Bool := false) (lingering : Bool := false) : Obj :=
+  { deletedEvent := false, ongoing := false, blocked := blocked, carried := carried, lingering := lingering,
+    handlerDelays := false, resumed := [] }
+
 def isNoneCb : Option J → Bool
   | some .null => true
   | _ => false
@@ -635,11 +720,11 @@ def isNoneCb : Option J → Bool
 /-- C15-F1: `on.create(field='spec.f', value=ABSENT)` on an object created WITH the field:
     the code selects it (old is None ⇒ absent), the documented criteria do not hold. -/
 theorem doc_gap_old_only_witness :
-    ∃ (h : Handler J) (c : Cause J), TokenBlind h ∧ NoTokenLit h ∧ ¬IsUpdate h ∧ c.changing = true ∧
+    ∃ (h : Handler J) (c : Cause J), TokenFree h c ∧ ¬IsUpdate h ∧ c.changing = true ∧
       matchHandler h c = true ∧ ¬DocSpec h c := by
-  refine ⟨wH true .absent false, wC true (some (.str "x")) none (some (.str "x")), ?_, ?_, ?_, rfl, rfl, ?_⟩
-  · rintro f (e | e | e) <;> cases e
-  · exact ⟨(by intro e; cases e), (by intro e; cases e), (by intro e; cases e)⟩
+  refine ⟨wH true .absent false, wC true (some (.str "x")) none (some (.str "x")), ?_, ?_, rfl, rfl, ?_⟩
+  · exact tokenFree_of_blind _ _ (by rintro f (e | e | e) <;> cases e)
+      ⟨(by intro e; cases e), (by intro e; cases e), (by intro e; cases e)⟩
   · rintro ⟨_, e⟩; cases e
   · intro ds
     have := (ds.field ["spec", "f"] rfl (by simp)).other (by rintro ⟨_, _, e⟩; cases e)
@@ -648,10 +733,9 @@ theorem doc_gap_old_only_witness :
 /-- C15-F2: a field callback `v is None` on an absent field: documented to hold (the callback is
     passed None), but the code passes the private token and does not select the handler. -/
 theorem doc_gap_callback_token_witness :
-    ∃ (h : Handler J) (c : Cause J), NoTokenLit h ∧ OldOnlyFree h c ∧
+    ∃ (h : Handler J) (c : Cause J), OldOnlyFree h c ∧
       matchHandler h c = false ∧ DocSpec h c := by
-  refine ⟨wH false (.callback isNoneCb) false, wC false none none none, ?_, ?_, rfl, ?_⟩
-  · exact ⟨(by intro e; cases e), (by intro e; cases e), (by intro e; cases e)⟩
+  refine ⟨wH false (.callback isNoneCb) false, wC false none none none, ?_, rfl, ?_⟩
   · intro p _ _ hc; cases hc
   · refine ⟨?_, rfl, ?_, ?_, ?_, ?_⟩
     · intro b e; cases e; rfl
@@ -664,10 +748,9 @@ theorem doc_gap_callback_token_witness :
 
 /-- the private token used as a criterion matches an absent field; nothing documented does -/
 theorem doc_gap_token_literal_witness :
-    ∃ (h : Handler J) (c : Cause J), TokenBlind h ∧ OldOnlyFree h c ∧
+    ∃ (h : Handler J) (c : Cause J), OldOnlyFree h c ∧
       matchHandler h c = true ∧ ¬DocSpec h c := by
-  refine ⟨wH false (.lit none) false, wC false none none none, ?_, ?_, rfl, ?_⟩
-  · rintro f (e | e | e) <;> cases e
+  refine ⟨wH false (.lit none) false, wC false none none none, ?_, rfl, ?_⟩
   · intro p _ _ hc; cases hc
   · intro ds
     have := (ds.field ["spec", "f"] rfl (by simp)).other (by rintro ⟨e, _⟩; cases e)
@@ -678,11 +761,23 @@ theorem doc_gap_token_literal_witness :
 example :
     let h := wH true .unset true (.lit (some (.str "x"))) .present (some [("lk", .present)])
     let c := wC true (some (.str "y")) (some (.str "x")) (some (.str "y")) (some "v")
-    TokenBlind h ∧ NoTokenLit h ∧ IsUpdate h ∧ OldOnlyFree h c ∧ matchHandler h c = true := by
-  refine ⟨?_, ?_, ⟨rfl, rfl⟩, ?_, by decide⟩
-  · rintro f (e | e | e) <;> cases e
-  · exact ⟨(by intro e; cases e), (by intro e; cases e), (by intro e; cases e)⟩
+    TokenFree h c ∧ IsUpdate h ∧ OldOnlyFree h c ∧ matchHandler h c = true := by
+  refine ⟨?_, ⟨rfl, rfl⟩, ?_, by decide⟩
+  · exact tokenFree_of_blind _ _ (by rintro f (e | e | e) <;> cases e)
+      ⟨(by intro e; cases e), (by intro e; cases e), (by intro e; cases e)⟩
   · intro p _ _ _ hnu; exact absurd ⟨rfl, rfl⟩ hnu
+-- the guard is per (handler, cause): a callback that DOES tell the token from None is fine as long as
+-- the field is present in every consulted state (no cause-independent guard could say this)
+example :
+    let h := wH false (.callback isNoneCb) false
+    let c := wC false (some .null) none none
+    TokenFree h c ∧ ¬TokenBlind h ∧ matchHandler h c = true := by
+  refine ⟨?_, ?_, by decide⟩
+  · intro p _ _
+    exact ⟨(fun hc => by cases hc), (fun _ hx => by cases hx)⟩
+  · intro hb
+    have := hb isNoneCb (Or.inl rfl)
+    simp [isNoneCb] at this
 -- … and without the label, or with an unchanged field, it does not
 example : matchHandler (wH true .unset true (.lit (some (.str "x"))) .present (some [("lk", .present)]))
     (wC true (some (.str "y")) (some (.str "x")) (some (.str "y")) none) = false := by decide
@@ -705,9 +800,9 @@ def wCs (label : Option String) : Causes J :=
   { watching := c, spawning := c, changing := c }
 example : prematchAny wR.changing (wCs none).changing = false ∧
     requiresFinalizerSpawning wR.spawning (wCs none).spawning [] = false ∧
-    cycle wR (wCs none) ⟨false, false, false, true, false⟩ [] = [] := by decide
+    cycle wR (wCs none) wO [] = [] := by decide
 -- … and with the label the same cycle adds the finalizer (so `stealth`'s hypothesis is what matters)
-example : cycle wR (wCs (some "v")) ⟨false, false, false, true, false⟩ [] = [Effect.addFinalizer] := by decide
+example : cycle wR (wCs (some "v")) wO [] = [Effect.addFinalizer] := by decide
 
 -- non-vacuity of `stealth_total` with handlers of all three kinds present but filtered out, and of
 -- `dedup_first_kept` (the second registration of (0, "h") is not the first of its key; the third is)
@@ -717,8 +812,8 @@ example :
     prematchAny r.changing (wCs (some "y")).changing = false ∧
     (∀ g ∈ r.watching, matchHandler g (wCs (some "y")).watching = false) ∧
     (∀ g ∈ r.spawning, matchHandler g (wCs (some "y")).spawning = false) ∧
-    cycle r (wCs (some "y")) ⟨false, false, false, true, false⟩ [] = [] ∧
-    cycle r (wCs (some "x")) ⟨false, false, false, true, false⟩ [] =
+    cycle r (wCs (some "y")) wO [] = [] ∧
+    cycle r (wCs (some "x")) wO [] =
       [Effect.invokeWatching ["h"], Effect.spawn ["h"], Effect.addFinalizer] := by
   refine ⟨by decide, ?_, ?_, by decide, by decide⟩ <;> (intro g hg; simp at hg; subst hg; decide)
 example :
@@ -733,7 +828,7 @@ theorem stealth_carried_witness :
       (∀ h ∈ r.watching, matchHandler h cs.watching = false) ∧
       (∀ h ∈ r.spawning, matchHandler h cs.spawning = false) ∧ o.blocked = false ∧
       cycle r cs o [] = [Effect.carried] ∧ Effect.carried.isFrameworkWrite = true :=
-  ⟨wR, wCs none, ⟨false, false, false, true, true⟩, by decide, by simp [wR], by simp [wR], rfl, by decide, rfl⟩
+  ⟨wR, wCs none, (wO false true), by decide, by simp [wR], by simp [wR], rfl, by decide, rfl⟩
 
 /-- a leftover own finalizer on an object that nothing matches is removed: the guard
     `o.blocked = false` is necessary (and the removal is what the clause asks for) -/
@@ -742,11 +837,11 @@ theorem stealth_blocked_witness :
       (∀ h ∈ r.watching, matchHandler h cs.watching = false) ∧
       (∀ h ∈ r.spawning, matchHandler h cs.spawning = false) ∧ o.carried = false ∧
       cycle r cs o [] = [Effect.removeFinalizer] :=
-  ⟨wR, wCs none, ⟨false, false, true, true, false⟩, by decide, by simp [wR], by simp [wR], rfl, by decide⟩
+  ⟨wR, wCs none, (wO true), by decide, by simp [wR], by simp [wR], rfl, by decide⟩
 
 -- a carried patch also postpones the handling of an object that DOES match (exit to PATCHing first)
-example : cycle wR (wCs (some "v")) ⟨false, false, true, true, true⟩ [] = [Effect.carried] ∧
-    cycle wR (wCs (some "v")) ⟨false, false, true, true, false⟩ [] = [Effect.handle ["h"]] := by decide
+example : cycle wR (wCs (some "v")) (wO true true) [] = [Effect.carried] ∧
+    cycle wR (wCs (some "v")) (wO true) [] = [Effect.handle ["h"]] := by decide
 
 def kex : Resource :=
   { group := "kopf.dev", version := "v1", plural := "kopfexamples", kind := some "KopfExample",
@@ -777,6 +872,36 @@ example : ({ group := some "kopf.dev", anyName := some (.name "kex") } : Selecto
       { k8sEvents with group := "", categories := [] } = false ∧
     eventsSel.check { k8sEvents with group := "" } = true ∧
     isEventsK8s kex = false := by decide
+
+/-- C15-F6: the only handler is a daemon that needs label lk; the object has no label, no finalizer,
+    nothing carried in — but the daemon spawned while it still had the label is exiting: the cycle
+    sleeps and writes `touch-dummy`. The guard `o.lingering = false` is necessary. -/
+theorem stealth_touch_witness :
+    ∃ (r : Registry J) (cs : Causes J) (o : Obj), prematchAny r.changing cs.changing = false ∧
+      (∀ h ∈ r.watching, matchHandler h cs.watching = false) ∧
+      (∀ h ∈ r.spawning, matchHandler h cs.spawning = false) ∧ o.blocked = false ∧ o.carried = false ∧
+      cycle r cs o [] = [Effect.touch] ∧ Effect.touch.isFrameworkWrite = true := by
+  refine ⟨{ watching := [], changing := [],
+            spawning := [{ wH false .unset false .unset .unset (some [("lk", .present)]) true with field := none }] },
+          wCs none, wO false false true, by decide, by simp, ?_, rfl, rfl, by decide, rfl⟩
+  intro h hh; simp at hh; subst hh; decide
+
+/-- C15-F7: `on.update(...)(ops.setup)` and `on.resume(...)(ops.setup)`: one function (`func = 7`),
+    one id, two objects (`fn = 1, 2`): both registrations are selected — the function runs twice -/
+theorem bound_method_twice_witness :
+    ∃ (l : List (Handler J)) (c : Cause J),
+      (getHandlersChanging l c []).map Handler.funcKey = [(7, "h"), (7, "h")] ∧
+      ¬((getHandlersChanging l c []).map Handler.funcKey).Nodup := by
+  refine ⟨[{ wH true .unset false with fn := 1, func := 7, field := none },
+           { wH true .unset false with fn := 2, func := 7, field := none }],
+          wC true none none none, by decide, by decide⟩
+
+-- non-vacuity of `dedup_function_once_partial`: the same function through the SAME object twice → once
+example :
+    let h : Handler J := { wH true .unset false with fn := 1, func := 7, field := none }
+    OneObjectPerFunction [h, h] ∧ (getHandlersChanging [h, h] (wC true none none none) []).map Handler.funcKey = [(7, "h")] := by
+  refine ⟨?_, by decide⟩
+  intro a ha b hb _; simp at ha hb; rw [ha, hb]
 
 end Witnesses
 
